@@ -18,3 +18,16 @@ Definition it_kids {T} (t : itree T) : option (list (itree T)) := match t with I
 Definition enum {T} (xs : list T) : list (nat * T) := combine (seq 0 (List.length xs)) xs.
 (* s[a:b, :].reshape(n) of a matrix given as its list of rows *)
 Definition rows_flat {B} (a b : nat) (S : list (list B)) : list B := List.concat (firstn (b - a) (skipn a S)).
+
+(* ---- SubBalancedDeviceSet._labelled_sets: a dict keyed by label, a set of row indices ---- *)
+(* d[k] = v: an existing key keeps its position *)
+Fixpoint dict_set {V} (k : string) (v : V) (d : list (string * V)) : list (string * V) :=
+  match d with
+  | [] => [(k, v)]
+  | (k', v') :: d' => if String.eqb k k' then (k, v) :: d' else (k', v') :: dict_set k v d'
+  end.
+(* d[k] *)
+Definition dict_get {V} (dflt : V) (k : string) (d : list (string * V)) : V :=
+  match find (fun kv => String.eqb k (fst kv)) d with Some kv => snd kv | None => dflt end.
+(* s.difference_update(rm) on a set of small integers (kept in increasing order) *)
+Definition set_minus (s rm : list nat) : list nat := filter (fun k => negb (existsb (Nat.eqb k) rm)) s.
